@@ -907,7 +907,10 @@ def fermion_body(case):
         circuit, phase = out if case["return_phase"] else (out, 1.0)
         # terms the operator arithmetic (scaling, mapping) may drop wholly or partly (|coef| < 1e-8 per step): whether kept or
         # dropped, each changes the exponent by at most |c t|
-        extra_tol = 2 * sum(abs(c * t) for k, c, t in fts if abs(c * t) / r < FERM_TINY)
+        # (the real and the imaginary part of a coefficient map to different Pauli words, so each is judged on its own:
+        # thorough-tier case hop(0,1) with coefficient 1 + 1.19e-7j lost the images of its imaginary part, error 2.9e-8)
+        extra_tol = 2 * sum(abs(part * t) for k, c, t in fts for part in (np.real(c), np.imag(c))
+                            if part != 0 and abs(part * t) / r < FERM_TINY)
         kept = {k: v for k, v in eff.items() if abs(v) >= FERM_TINY}
         if no_ladder or not any(k for k in kept):
             terms_t = [((), float(np.real(sum(v for k, v in eff.items() if not k))))]
